@@ -2,7 +2,7 @@
    ExtrOcamlBasic only; N, Z, positive and nat stay the extracted inductive types. *)
 Require Extraction.
 Require Import ExtrOcamlBasic.
-From VpnModel Require Import Base Dissect RangeMatch Nonce Replay Interval Netmask Base62 Table Core CoreSys.
+From VpnModel Require Import Base Dissect RangeMatch Nonce Replay Interval Netmask Base62 Table TableSys Core CoreSys Sha512 Beacon Keys.
 Extraction Language OCaml.
 Separate Extraction
   Base.be_val Base.be_enc Base.list_eqb
@@ -16,4 +16,7 @@ Separate Extraction
   Netmask.parse_ip_netmask Netmask.ip_part
   Base62.to_base62 Base62.from_base62
   Table.table_new Table.table_cache Table.table_housekeep Table.table_set_claims Table.table_remove_claims Table.table_lookup
+  TableSys.trun
+  Beacon.encode Beacon.decode Sha512.sha512
+  Keys.parse_key32
   CoreSys.crun CoreSys.cst_init.
